@@ -27,6 +27,8 @@ CODES = {
     6: ("oracle", "the result changes under a combined re-presentation (voter order + insertion order + scaling)"),
     7: ("model", "malformed case file (harness)"),
     8: ("model", "sequential Phragmen: the implementation's outcome differs from Model/Phragmen.v"),
+    9: ("oracle", "the result depends on what was computed before in the same process (the same Instance / profile / "
+                  "Project objects had been used for another election)"),
     core.RAISED: ("oracle", "a rule raised on one of the presentations of a well-formed election"),
 }
 RULE = ("tie-rich elections (2..8 projects named p00..p07, 60 % with >= 6; all-equal / two-valued / pooled / fractional "
@@ -37,12 +39,19 @@ RULE = ("tie-rich elections (2..8 projects named p00..p07, 60 % with >= 6; all-e
         "the PRIMAL_DUAL welfare maximiser under 2 exactly-computed measures each and lexicographic + another shipped "
         "tie-breaking rule} x presentations {as given (run twice); 2 voter permutations; 2 project insertion orders; "
         "costs and budget scaled by 1/3, 7, 10/7, 1000; one combination of all three (run twice)} x one interpreter per "
-        "PYTHONHASHSEED (quick 3, thorough 8); non-trivial = some set-valued call selects a project")
+        "PYTHONHASHSEED (quick 3, thorough 8); plus 2 (thorough 4) PROCESS-HISTORY presentations per election: the "
+        "election evaluated after 1-2 other elections on the same Instance object / the same profile with another "
+        "Instance / the same Project objects with other costs, through the same calls and tie-breaking singletons; "
+        "plus a NEAR-TIE stream (every 6th case): approval MultiProfiles with multiplicities 2e4..1e8 and integer costs "
+        "up to 1e18 whose loads / rho / densities differ by a relative 1e-9..1e-17, worse project with the smaller "
+        "name, budget for one of them, 3 extra insertion orders; non-trivial = some set-valued call selects a project")
 ASSUMPTIONS = [
     "the hash seed influences a run only through the iteration order of sets/dicts keyed by Project or str "
     "(modelled in the theorems as an arbitrary enumeration order); the multi-interpreter sweep is what exercises it",
     "float-valued measures (sqrt/log) are excluded: scaling is only claimed for exactly computed satisfactions",
     "welfare maximiser: the attained total satisfaction is compared (divided by k for Cost_Sat/Effort_Sat), not the set",
+    "process history (object reuse, module-level singletons) is outside the pure Gallina models: decided by the "
+    "correspondence run only (presentation kind 5 must reproduce the outcome on fresh objects)",
 ]
 TRUSTED = ["harness/vharness/props/c13_helper.py (runs the library under each hash seed and canonicalises outcomes)",
            "Model/Phragmen.v, Model/GreedyRule.v mirror the rules (modelled, not verified)"]
@@ -55,8 +64,7 @@ EXPLANATION = ("Theorems (models, unbounded): sequential Phragmen (resolute and 
                "irresolute rule (through C02's model-refines-textbook theorem, the functionality of the textbook run, "
                "and C08's irresolute = all orders), scaling of all four entry points by a step-by-step simulation, "
                "the R6 step on the code path and the refutation of the pre-R6 models of Equal Shares and Phragmen on "
-               "the 6-project witness.  UNPROVED: only the iterated+irresolute Equal Shares entry point "
-               "(Props/C13.v).  Tie: every outcome of every "
+               "the 6-project witness (iterated+irresolute Equal Shares: Props/C13mes.v).  Tie: every outcome of every "
                "presentation/seed/repetition is handed to Coq, which decides equality (C13_oracle_sound); Phragmen "
                "outcomes are also compared with the model.")
 
@@ -187,11 +195,107 @@ def _gen_pres(rng, n, nv, tier):
     return pres
 
 
+def _earlier_ballots(rng, e):
+    """ballots of ANOTHER election over the same projects (what the process did before)"""
+    n = len(e["costs"])
+    nv = rng.choice([1, 2, 3, 4])
+    if e["btype"] == "approval" and rng.random() < 0.5:
+        # popularity inverted w.r.t. name order: late names are approved more often
+        out = []
+        for _ in range(nv):
+            k = rng.randrange(1, n + 1)
+            out.append(list(range(n - k, n)))
+        return out
+    return E.gen_ballots(rng, e["btype"], n, nv)
+
+
+def _gen_history(rng, e, tier):
+    """presentations of kind 5: the election evaluated after other work on the same objects"""
+    n, nv = len(e["costs"]), len(e["ballots"])
+    idv, ido = list(range(nv)), list(range(n))
+    pres = []
+    modes = ["inst", rng.choice(["inst", "prof", "cost"])] if tier == "quick" else ["inst", "inst", "prof", "cost"]
+    for mode in modes:
+        h = {"mode": mode, "earlier": [_earlier_ballots(rng, e) for _ in range(rng.choice([1, 1, 2]))]}
+        if mode == "prof":
+            h["budget2"] = pb.qs(pb.F(e["budget"]) * rng.choice([Fraction(1, 2), Fraction(2), Fraction(3, 2)]))
+        if mode == "cost":
+            pool = [pb.F(c) for c in e["costs"]]
+            h["costs2"] = [pb.qs(rng.choice(pool) + rng.choice([0, 1, 2])) for _ in range(n)]
+        pres.append({"kind": 5, "vperm": idv, "order": ido, "scale": "1/1", "hist": h})
+    return pres
+
+
+def _gen_near_tie(rng, i):
+    """city-sized approval election given as a MultiProfile: large integer costs and multiplicities such that the
+    quantities the rules compare (Phragmen loads cost/supporters, Equal Shares rho, greedy densities) of two or
+    three projects differ by a relative 1e-9 .. 1e-17 -- NOT ties; the slightly worse projects tend to have the
+    smaller names (they would win a tie) and the budget admits only one of them."""
+    mode = rng.randrange(3)
+    ngroup = rng.choice([2, 2, 3])
+    if mode == 0:
+        # same supporters, costs c, c+d1, c+d2 with c ~ 1e10 .. 1e17
+        c = rng.randrange(10 ** rng.choice([10, 12, 14, 15, 16, 17]), 10 ** 18)
+        deltas = sorted(rng.sample(range(0, 6), ngroup), reverse=rng.random() < 0.75)
+        costs = [c + d for d in deltas]
+        groups = [list(range(ngroup))]
+        mults = [rng.choice([1, 2, 7, 1000, 40001])]
+        if rng.random() < 0.5:
+            groups.append([])
+            mults.append(rng.choice([1, 3]))
+    else:
+        # disjoint supporter groups with cost_i = q * n_i + d: ratios q + d / n_i, n_i consecutive
+        q = rng.choice([1, 2, 5, 9])
+        d = rng.choice([1, 1, 2, 3]) * (1 if rng.random() < 0.75 else -1)
+        n1 = rng.choice([20000, 20000, 31623, 10 ** 5, 10 ** 6, 10 ** 7, 10 ** 8]) + rng.randrange(0, 50)
+        ns = [n1 + t for t in range(ngroup)]
+        if rng.random() < 0.25:
+            ns.reverse()
+        costs = [q * nn + d for nn in ns]
+        groups = [[t] for t in range(ngroup)]
+        mults = list(ns)
+        if mode == 2:                       # somebody approves all of them
+            groups.append(list(range(ngroup)))
+            mults.append(rng.choice([1, 2, 1000]))
+    # cheap fillers with late names
+    nfill = rng.choice([0, 0, 1, 2])
+    for f in range(nfill):
+        costs.append(rng.choice([1, 2, 3]))
+        groups.append([ngroup + f])
+        mults.append(rng.choice([1, 2, 5]))
+    budget = max(costs[:ngroup]) + sum(costs[ngroup:]) if rng.random() < 0.8 else sum(costs) - min(costs[:ngroup])
+    e = {"costs": [pb.qs(c) for c in costs], "budget": pb.qs(budget), "btype": "approval", "ballots": groups,
+         "mults": mults, "multi": True, "near_tie": True}
+    calls = [{"rule": "phragmen", "tb": tb} for tb in TBS_APPROVAL]
+    for rule in ("mes", "greedy"):
+        for sat in ("Cardinality_Sat", "Cost_Sat"):
+            for tb in ("lexico", rng.choice(TBS_APPROVAL[1:])):
+                c = {"rule": rule, "sat": sat, "tb": tb}
+                if rule == "greedy":
+                    c["additive"] = None if rng.random() < 0.6 else False
+                calls.append(c)
+    calls.append({"rule": "maxw", "sat": "Cardinality_Sat"})
+    e["calls"] = calls
+    return e
+
+
 def gen(rng, i, tier):
+    if i % 6 == 4:
+        c = _gen_near_tie(rng, i)
+        n, nv = len(c["costs"]), len(c["ballots"])
+        c["pres"] = _gen_pres(rng, n, nv, tier)
+        # more insertion orders: with 2..5 projects the iteration order of the set is what matters
+        ido = list(range(n))
+        for r in range(3):
+            o = list(ido)
+            rng.shuffle(o)
+            c["pres"].append({"kind": 2, "vperm": list(range(nv)), "order": o, "scale": "1/1"})
+        c["tier"] = tier
+        return c
     e = _gen_election(rng, i)
     c = dict(e)
     c["calls"] = _gen_calls(rng, e["btype"])
-    c["pres"] = _gen_pres(rng, len(e["costs"]), len(e["ballots"]), tier)
+    c["pres"] = _gen_pres(rng, len(e["costs"]), len(e["ballots"]), tier) + _gen_history(rng, e, tier)
     c["tier"] = tier
     return c
 
@@ -264,15 +368,23 @@ def _pair(ab):
     return "(%s, %s)" % (_outv(a), "None" if b is None else "(Some %s)" % _outv(b))
 
 
+def _model_ok(case):
+    """Model/Phragmen.v carries multiplicities as (unary) nat: compared only for electorates that fit"""
+    return case["btype"] == "approval" and max([1] + [int(m) for m in (case.get("mults") or [])]) <= 50000
+
+
 def coq_case(case, o):
     calls = []
     for ci, call in enumerate(case["calls"]):
         rows = [lst([_pair(ab) for ab in s["runs"][ci]]) for s in o["per_seed"]]
         phr = "None"
-        if call["rule"] == "phragmen":
+        if call["rule"] == "phragmen" and _model_ok(case):
             phr = "(Some %s)" % core.nat(TBID[call["tb"]])
         calls.append("(mkCall %s %s %s)" % (boolc(call.get("cross", True)), phr, lst(rows)))
-    ballots = [natl(b) for b in case["ballots"]] if case["btype"] == "approval" else []
+    ballots = []
+    if _model_ok(case):
+        ms = case.get("mults") or [1] * len(case["ballots"])
+        ballots = ["(%s, %s)" % (natl(b), core.nat(m)) for b, m in zip(case["ballots"], ms)]
     return "(mkCase %s %s %s %s %s)" % (core.qlist(case["costs"]), q(case["budget"]), lst(ballots),
                                        natl([p["kind"] for p in case["pres"]]), lst(calls))
 
@@ -292,7 +404,7 @@ def py_oracle(case, o):
         for r in rows:
             for pres, (a, _) in zip(case["pres"], r):
                 if pres["kind"] and key(a) != key(r[0][0]):
-                    return 2 + pres["kind"]
+                    return 9 if pres["kind"] == 5 else 2 + pres["kind"]
     return 0
 
 
@@ -328,7 +440,9 @@ def stats(cases, obs):
          "some_costs_equal": 0, "fractional_costs": 0, "zero_cost_present": 0, "duplicated_ballots": 0,
          "calls_by_rule": {}, "calls_by_tb": {}, "calls_by_sat": {}, "presentations_by_kind": {}, "seeds": None,
          "set_iteration_order_differs_between_seeds": 0, "tie_breaking_rule_changes_outcome": 0,
-         "welfare_sets_differ_between_presentations": 0, "rule_runs_total": 0, "nonempty_base_outcome": 0}
+         "welfare_sets_differ_between_presentations": 0, "rule_runs_total": 0, "nonempty_base_outcome": 0,
+         "near_tie_cases": 0, "near_tie_max_multiplicity_hist": {}, "history_presentations_by_mode": {},
+         "phragmen_compared_with_model": 0}
     for c, o in zip(cases, obs):
         if not isinstance(o, dict) or "per_seed" not in o:
             continue
@@ -338,6 +452,15 @@ def stats(cases, obs):
         d["voters_hist"][str(nv)] = d["voters_hist"].get(str(nv), 0) + 1
         d["btype"][c["btype"]] = d["btype"].get(c["btype"], 0) + 1
         d["multi"] += bool(c["multi"])
+        if c.get("near_tie"):
+            d["near_tie_cases"] += 1
+            k = "1e%d" % (len(str(max(int(m) for m in c["mults"]))) - 1)
+            d["near_tie_max_multiplicity_hist"][k] = d["near_tie_max_multiplicity_hist"].get(k, 0) + 1
+        for pr in c["pres"]:
+            if pr.get("hist"):
+                m = pr["hist"]["mode"]
+                d["history_presentations_by_mode"][m] = d["history_presentations_by_mode"].get(m, 0) + 1
+        d["phragmen_compared_with_model"] += _model_ok(c) and any(x["rule"] == "phragmen" for x in c["calls"])
         cs = [Fraction(x) for x in c["costs"]]
         d["all_costs_equal"] += len(set(cs)) == 1
         d["some_costs_equal"] += len(set(cs)) < len(cs)
@@ -403,21 +526,38 @@ def shrink(case):
         if nv > 1:
             c = dict(case)
             c["ballots"] = case["ballots"][:v] + case["ballots"][v + 1:]
+            if case.get("mults"):
+                c["mults"] = case["mults"][:v] + case["mults"][v + 1:]
             c["pres"] = [dict(p, vperm=[x - (x > v) for x in p["vperm"] if x != v]) for p in case["pres"]]
             yield c
+    # shorter history
+    for pj, p in enumerate(case["pres"]):
+        if p.get("hist") and len(p["hist"]["earlier"]) > 1:
+            for t in range(len(p["hist"]["earlier"])):
+                c = dict(case)
+                h = dict(p["hist"], earlier=p["hist"]["earlier"][:t] + p["hist"]["earlier"][t + 1:])
+                c["pres"] = case["pres"][:pj] + [dict(p, hist=h)] + case["pres"][pj + 1:]
+                yield c
     # drop a project
     for j in range(n):
         if n <= 1:
             break
         c = dict(case)
         ren = lambda W: [x - (x > j) for x in W if x != j]
+        renb = lambda bs: ([ren(b) for b in bs] if case["btype"] in ("approval", "ordinal") else
+                           [{str(int(k) - (int(k) > j)): v for k, v in b.items() if int(k) != j} for b in bs])
         c["costs"] = case["costs"][:j] + case["costs"][j + 1:]
-        c["pres"] = [dict(p, order=ren(p["order"])) for p in case["pres"]]
-        if case["btype"] in ("approval", "ordinal"):
-            c["ballots"] = [ren(b) for b in case["ballots"]]
-        else:
-            c["ballots"] = [{str(int(k) - (int(k) > j)): v for k, v in b.items() if int(k) != j}
-                            for b in case["ballots"]]
+        pres = []
+        for p in case["pres"]:
+            p2 = dict(p, order=ren(p["order"]))
+            if p.get("hist"):
+                h = dict(p["hist"], earlier=[renb(eb) for eb in p["hist"]["earlier"]])
+                if "costs2" in h:
+                    h["costs2"] = h["costs2"][:j] + h["costs2"][j + 1:]
+                p2["hist"] = h
+            pres.append(p2)
+        c["pres"] = pres
+        c["ballots"] = renb(case["ballots"])
         yield c
     if case.get("multi"):
         c = dict(case)
